@@ -275,6 +275,32 @@ static void run_tagged(void) {
     }
 }
 
+/* negative and zero lengths never read anything */
+static void run_tagged_negative(void) {
+    if (!vh_section_begin("tagged.Get/nonpositive")) {
+        return;
+    }
+    static const int32_t NS[] = {0, -1, -9, INT32_MIN};
+    for (int b0 = 0; b0 < 256; b0 += 5) {
+        for (size_t k = 0; k < sizeof NS / sizeof *NS; k++) {
+            if (!vh_case()) {
+                continue;
+            }
+            uint8_t *in = vh_gb_get(G_IN, 0, -1); /* zero readable bytes: any read faults */
+            uint64_t got = 0;
+            int r = -1;
+            snprintf(cur_desc, sizeof cur_desc, "tagged with n=%d (no readable byte)", NS[k]);
+            CALL("tagged.Get", r = (int)varintTaggedGet(in, NS[k], &got), {
+                if (r != 0) {
+                    vh_fail("tagged.Get", "truncation_not_reported", "untagged", "%s returned %d", cur_desc, r);
+                }
+            });
+            vh_count("cases", 1);
+        }
+    }
+    vh_class("tagged/nonpositive-length", "n in {0,-1,-9,INT32_MIN}");
+}
+
 /* ---------------------------------------------------------------- byte-string alphabet B */
 static void run_strings(void) {
     if (!vh_section_begin("strings")) {
@@ -496,6 +522,7 @@ int main(int argc, char **argv) {
     vh_gb_init(G_OUT, 1 << 16);
     vm_init((size_t)256 << 20);
     run_tagged();
+    run_tagged_negative();
     run_strings();
     run_deviations();
     vh_write_out();
